@@ -146,6 +146,19 @@ def _coverage_ok(ctx, r, module, needed):
         raise MachineryError("%s: actions never taken in the coverage run: %s (coverage: %s)" % (module, missing, r.coverage))
 
 
+def _par(ctx, jobs, width=3):
+    """Run independent TLC jobs (callables) side by side; results in order.  Errors propagate."""
+    from concurrent.futures import ThreadPoolExecutor
+    ctx._spec_dir()
+    with ThreadPoolExecutor(max_workers=width) as ex:
+        futs = [ex.submit(j) for j in jobs]
+        return [f.result() for f in futs]
+
+
+VERSIONS = ["1", "2", "3", "4", "5", "6", "7", "8", "9", "10", "11", "12",
+            "org.matrix.msc3667", "org.matrix.msc3787", "org.matrix.msc4014", "org.matrix.hydra.11"]
+
+
 def _dedupe(records):
     seen, out = set(), []
     for r in records:
@@ -168,35 +181,36 @@ def run(ctx):
         "linearisability is stated per critical section: a lookup is Read at L1 (hit) or Read at L1 + Store at L2 (miss); two concurrent misses on one host both resolve, which equals a sequential execution with an expiry between the two calls",
     ]
 
-    # ---- 1. the designs ---------------------------------------------------------------------------------
-    r = ctx.tlc("DNSCache", "DNSCache_quick.cfg", coverage=True)
-    _coverage_ok(ctx, r, "DNSCache", ["Call", "L1Retry", "ResolveOk", "ResolveFail", "L2Lock", "L2Evict", "L2Insert",
-                                      "DialOk", "DialFail", "DelRetry", "Expire", "Done"])
-    for cfg in (["DNSCache_quick2.cfg"] if quick else ["DNSCache_thorough.cfg", "DNSCache_thorough2.cfg", "DNSCache_thorough3.cfg"]):
-        ctx.tlc("DNSCache", cfg)
-    for cfg in (["DNSCache_live_quick.cfg"] if quick else ["DNSCache_live_quick.cfg", "DNSCache_live_thorough.cfg", "DNSCache_live_thorough2.cfg"]):
-        ctx.tlc("DNSCache", cfg)
-    _expect_violation(ctx, "DNSCache", "DNSCache_size0.cfg", "EveryCallReturns")
-
-    r = ctx.tlc("KeyFetchPool", "KeyFetchPool_quick.cfg", coverage=True)
-    _coverage_ok(ctx, r, "KeyFetchPool", ["Take", "Direct", "Notary", "Merge", "Return"])
-    _coverage_ok(ctx, r, "KeyFetchPool", ["Send", "Close", "StartWorkers"])
-    ctx.tlc("KeyFetchPool", "KeyFetchPool_fewworkers.cfg")      # W < #servers, Q = #servers (the code beyond 64 servers)
-    ctx.tlc("KeyFetchPool", "KeyFetchPool_bigqueue.cfg")        # Q > #servers, W = 1
-    ctx.tlc("KeyFetchPool", "KeyFetchPool_startfirst.cfg")      # alternative design: workers first, Q = 1
-    _expect_violation(ctx, "KeyFetchPool", "KeyFetchPool_smallqueue.cfg", "Deadlock")   # fill before start needs Q >= #servers
-
-    r = ctx.tlc("TransportCache", "TransportCache_quick.cfg", coverage=True)
-    _coverage_ok(ctx, r, "TransportCache", ["Call", "GetAgain", "SendOk", "SendFail", "Reaper", "Age"])
+    # ---- 1. the designs (independent TLC runs, three at a time) ----------------------------------------------
+    w = max(2, ctx.workers // 3)
+    dns_cfgs = ["DNSCache_quick2.cfg"] if quick else ["DNSCache_thorough.cfg", "DNSCache_thorough2.cfg", "DNSCache_thorough3.cfg"]
+    dns_live = ["DNSCache_live_quick.cfg"] if quick else ["DNSCache_live_quick.cfg", "DNSCache_live_thorough.cfg", "DNSCache_live_thorough2.cfg"]
+    jobs = [lambda: ctx.tlc("DNSCache", "DNSCache_quick.cfg", coverage=True, workers=w)]
+    jobs += [(lambda c=c: ctx.tlc("DNSCache", c, workers=w)) for c in dns_cfgs + dns_live + ["DNSCache_dur0.cfg"]]
+    jobs += [lambda: _expect_violation(ctx, "DNSCache", "DNSCache_size0.cfg", "EveryCallReturns")]
+    n_dns = len(jobs)
+    jobs += [lambda: ctx.tlc("KeyFetchPool", "KeyFetchPool_quick.cfg", coverage=True, workers=w),
+             lambda: ctx.tlc("KeyFetchPool", "KeyFetchPool_fewworkers.cfg", workers=w),   # W < #servers, Q = #servers (beyond 64 servers)
+             # fill before start needs Q >= #servers
+             lambda: _expect_violation(ctx, "KeyFetchPool", "KeyFetchPool_smallqueue.cfg", "Deadlock")]
     if not quick:
-        ctx.tlc("TransportCache", "TransportCache_thorough.cfg")
-    ctx.tlc("TransportCache", "TransportCache_live.cfg")
-    # lookup and create as two critical sections without a second look: callers of one name get different transports
-    _expect_violation(ctx, "TransportCache", "TransportCache_split.cfg", "CallersShareTheCachedTransport")
-
-    ctx.tlc("LazyID", "LazyID_atomic.cfg")
-    ctx.tlc("LazyID", "LazyID_eager.cfg")
-    _expect_violation(ctx, "LazyID", "LazyID_none.cfg", "NoDataRace")
+        jobs += [lambda: ctx.tlc("KeyFetchPool", "KeyFetchPool_bigqueue.cfg", workers=w),     # Q > #servers, W = 1
+                 lambda: ctx.tlc("KeyFetchPool", "KeyFetchPool_startfirst.cfg", workers=w)]   # workers first, Q = 1
+    n_keys = len(jobs)
+    jobs += [lambda: ctx.tlc("TransportCache", "TransportCache_quick.cfg", coverage=True, workers=w),
+             lambda: ctx.tlc("TransportCache", "TransportCache_live.cfg", workers=w),
+             # lookup and create as two critical sections without a second look: callers of one name get different transports
+             lambda: _expect_violation(ctx, "TransportCache", "TransportCache_split.cfg", "CallersShareTheCachedTransport"),
+             lambda: ctx.tlc("LazyID", "LazyID_atomic.cfg", workers=w),
+             lambda: _expect_violation(ctx, "LazyID", "LazyID_none.cfg", "NoDataRace")]
+    if not quick:
+        jobs += [lambda: ctx.tlc("TransportCache", "TransportCache_thorough.cfg", workers=w),
+                 lambda: ctx.tlc("LazyID", "LazyID_eager.cfg", workers=w)]
+    res = _par(ctx, jobs)
+    _coverage_ok(ctx, res[0], "DNSCache", ["Call", "L1Retry", "ResolveOk", "ResolveFail", "L2Lock", "L2Evict", "L2Insert",
+                                           "DialOk", "DialFail", "DelRetry", "Expire", "Done"])
+    _coverage_ok(ctx, res[n_dns], "KeyFetchPool", ["Take", "Direct", "Notary", "Merge", "Return", "Send", "Close", "StartWorkers"])
+    _coverage_ok(ctx, res[n_keys], "TransportCache", ["Call", "GetAgain", "SendOk", "SendFail", "Reaper", "Age"])
     ctx.notes["predicted_by_model"] = ("LazyID with Sync=none (the code as it is) violates NoDataRace; "
                                        "DNSCache with Size=0 violates EveryCallReturns; KeyFetchPool with a job queue smaller "
                                        "than the number of servers, filled before the workers start, deadlocks")
@@ -204,14 +218,23 @@ def run(ctx):
     # ---- 2. schedule replay (deterministic) -------------------------------------------------------------
     ctx.harness_build(race=True, pkg=PKG)   # once per run
 
-    dns = ctx.tlc("DNSCache_gen", "DNSCache_gen_quick.cfg").records
-    n_exh = len(dns)
+    # enumerated: two callers (hosts = size + 1), size = number of hosts, lifetime 0, and ONE caller making three
+    # consecutive calls (miss -> hit -> expiry -> miss, failed dial -> retry, hosts = size + 1 with eviction)
+    gens = ["DNSCache_gen_quick.cfg", "DNSCache_gen_full.cfg", "DNSCache_gen_dur0.cfg", "DNSCache_gen_seq.cfg", "DNSCache_gen_seq3.cfg"]
     if not quick:
-        dns += ctx.tlc("DNSCache_gen", "DNSCache_gen_thorough.cfg").records
-        dns += ctx.tlc("DNSCache_gen", "DNSCache_gen_thorough2.cfg").records
-        n_exh = len(dns)
-    dns += ctx.tlc("DNSCache_gen", "DNSCache_gen_sim.cfg", workers=1, simulate=700 if quick else 8000, depth=120).records
-    dns += ctx.tlc("DNSCache_gen", "DNSCache_gen_sim1.cfg", workers=1, simulate=500 if quick else 5000, depth=120).records
+        gens += ["DNSCache_gen_thorough.cfg", "DNSCache_gen_thorough2.cfg"]
+    sims = [("DNSCache_gen_sim.cfg", 600 if quick else 8000)] + ([] if quick else [("DNSCache_gen_sim1.cfg", 5000)])
+    out = _par(ctx, [(lambda c=c: ctx.tlc("DNSCache_gen", c, workers=w)) for c in gens] +
+               [(lambda c=c, n=n: ctx.tlc("DNSCache_gen", c, workers=1, simulate=n, depth=120)) for c, n in sims])
+    dns, n_exh = [], 0
+    for c, r in zip(gens, out):
+        recs = r.records
+        n_exh += len(recs)
+        if quick and c in ("DNSCache_gen_seq.cfg", "DNSCache_gen_seq3.cfg"):
+            recs = rng.sample(recs, min(len(recs), 2000))     # enumerated by TLC, sampled by seed in the quick tier
+        dns += recs
+    for r in out[len(gens):]:
+        dns += r.records
     dns = _dedupe(dns)
     _replay(ctx, "c19dns", dns, "DNS cache")
 
@@ -221,6 +244,8 @@ def run(ctx):
     _replay(ctx, "c19keys", keys, "key fetch pool")
     # sizes around the worker limit (64): the <= 3-server model cannot show what happens when W < #servers in the code
     sizes = [{"n": n, "pattern": ctx.seed * 2 + p} for n in (1, 63, 64, 65, 70, 130) for p in (0, 1)]
+    sizes += [{"n": 0, "pattern": 0}, {"n": 0, "pattern": 0, "local": 2}, {"n": 64, "pattern": ctx.seed, "local": 1},
+              {"n": 65, "pattern": ctx.seed, "local": 1}]
     _replay(ctx, "c19keysizes", sizes, "key fetch pool sizes")
 
     if quick:
@@ -233,6 +258,9 @@ def run(ctx):
         tr += ctx.tlc("TransportCache_gen", "TransportCache_gen_sim.cfg", workers=1, simulate=3000, depth=80).records
         tr = _dedupe(tr)
         ctx.notes["transport_schedules"] = "%d of %d enumerated (seeded sample) + simulated" % (min(n_tr, 8000), n_tr)
+    # one caller, one name: create -> use -> idle -> reap -> create again (a fresh transport), enumerated
+    trseq = ctx.tlc("TransportCache_gen", "TransportCache_gen_seq.cfg", workers=w).records
+    tr = _dedupe(tr + (rng.sample(trseq, min(len(trseq), 300)) if quick else trseq))
     _replay(ctx, "c19tr", tr, "transport cache")
 
     # ---- 3. stress under the race detector (sampled) -----------------------------------------------------
@@ -242,10 +270,27 @@ def run(ctx):
         cases = [{"case": "events", "ver": ver, "kind": kind, "tamper": tamper, "k": k, "rounds": rounds}
                  for kind in ("member", "create", "message") for tamper in (False, True)]
         _stress(ctx, "read-only accessors of one event parsed from untrusted JSON (room version %s)" % ver, cases)
+    # every registered room version (eventV1 / eventV2 / eventV3 accessor sets), every constructor
+    few = 6 if quick else 100
+    _stress(ctx, "read-only accessors of one event, every registered room version",
+            [{"case": "events", "ver": v, "kind": kind, "tamper": False, "k": k, "rounds": few}
+             for v in VERSIONS for kind in ("member", "create", "message")])
+    _stress(ctx, "read-only accessors of one event built by the trusted / headered constructors",
+            [{"case": "events", "ver": v, "kind": kind, "tamper": tamper, "ctor": ctor, "k": k, "rounds": few}
+             for v in VERSIONS for ctor in ("trusted", "headered")
+             for kind, tamper in (("member", False), ("create", False), ("message", ctor == "trusted"))])
+    # operations documented as returning a copy (SetUnsigned, Sign) next to the accessors of the shared event
+    for cp in ("setunsigned", "sign"):
+        _stress(ctx, "%s (returns a copy) next to the read-only accessors of one shared event" % cp,
+                [{"case": "events", "ver": v, "kind": kind, "tamper": False, "copies": cp, "k": k, "rounds": 4 * few}
+                 for v in (("1", "3", "10", "12") if quick else VERSIONS) for kind in ("member", "create")])
     _stress(ctx, "KeyRing.VerifyJSONs over overlapping servers (DirectKeyFetcher, scripted KeyClient)",
-            [{"case": "verify", "k": k, "rounds": 12 if quick else 300, "servers": s, "seed": ctx.seed * 10 + s} for s in (2, 4)])
-    _stress(ctx, "lookups on one DNS cache",
-            [{"case": "dns", "k": k, "rounds": 300 if quick else 5000, "size": sz, "hosts": 4, "seed": ctx.seed * 10 + sz} for sz in (1, 2, 3)])
+            [{"case": "verify", "k": k, "rounds": 10 if quick else 300, "servers": s, "seed": ctx.seed * 10 + s} for s in (2, 4)])
+    _stress(ctx, "KeyRing.VerifyJSONs with a PerspectiveKeyFetcher in front of the DirectKeyFetcher",
+            [{"case": "verify", "k": k, "rounds": 10 if quick else 300, "servers": s, "fetch": "perspective", "seed": ctx.seed * 10 + s} for s in (3, 5)])
+    _stress(ctx, "lookups, DialContext with failing dials, expiry on one DNS cache (size 1, hosts - 1, = hosts; lifetime 0)",
+            [{"case": "dns", "k": k, "rounds": 300 if quick else 5000, "size": sz, "hosts": 4, "seed": ctx.seed * 10 + sz} for sz in (1, 3, 4)] +
+            [{"case": "dns", "k": k, "rounds": 300 if quick else 5000, "size": 2, "hosts": 4, "dur0": True, "seed": ctx.seed}])
     _stress(ctx, "getTransport / reaper on one transport cache",
             [{"case": "transport", "k": k, "rounds": 200 if quick else 5000, "seed": ctx.seed}])
     # first use of a TLS name by several callers at once: the model's sequential reference (CallersShareTheCachedTransport)
